@@ -36,6 +36,50 @@ type c04Case struct {
 	Vals   []kit.F
 	Lower  bool // metadata better=lower (else higher)
 	Assume bool // metadata assume=exact (else nothing)
+	Pre    int  // shape of the Unit lines that precede the metadata (0 = none), see c04Preamble
+}
+
+// c04Preamble returns Unit lines to put in front of the metadata text of
+// check (iii): lines that name a unit WITHOUT any key=value pair (they set
+// nothing) and lines for an unrelated unit. It returns the text, the number
+// of lines, the records expected from it and the line numbers of the
+// pair-less lines (a reader may or may not complain about those).
+func c04Preamble(shape int, U, tu string) (text string, lines int, recs []string, pairless map[int]bool) {
+	pairless = map[int]bool{}
+	const other = "qq/op"
+	if U == other || tu == other {
+		return "", 0, nil, pairless
+	}
+	add := func(l string, rec string, bare bool) {
+		lines++
+		text += l + "\n"
+		if rec != "" {
+			recs = append(recs, fmt.Sprintf(rec, lines))
+		}
+		if bare {
+			pairless[lines] = true
+		}
+	}
+	otherRec := "meta@%d " + fmt.Sprintf("%q/%q", other, other) + " better=higher"
+	switch shape {
+	case 1: // the unit itself, bare
+		add("Unit "+U, "", true)
+	case 2: // another unit with a pair, then the unit itself, bare
+		add("Unit "+other+" better=higher", otherRec, false)
+		add("Unit "+U, "", true)
+	case 3: // another unit, bare
+		add("Unit "+other, "", true)
+	case 4: // bare line for the unit, metadata of another unit in between
+		add("Unit "+U, "", true)
+		add("Unit "+other+" better=higher", otherRec, false)
+	case 5: // the base name, bare, then the written name, bare
+		add("Unit "+tu, "", true)
+		add("Unit "+U, "", true)
+	case 6: // bare line of another unit, twice, with trailing blanks
+		add("Unit "+other+" ", "", true)
+		add("Unit "+other+"\t", "", true)
+	}
+	return
 }
 
 func c04Bits(f float64) uint64 {
@@ -197,27 +241,36 @@ func c04Check(c c04Case) *kit.Fail {
 		assume, other = "exact", "nothing"
 		wantAssume = benchmath.AssumeExact
 	}
-	text := "Unit " + U + " better=" + better + " assume=" + assume + "\n" + // two records
+	pre, preLines, preRecs, pairless := c04Preamble(c.Pre, U, tu)
+	if preLines > 0 {
+		kit.Count("metadata preceded by pair-less or unrelated Unit lines", 1)
+	}
+	text := pre + "Unit " + U + " better=" + better + " assume=" + assume + "\n" + // two records
 		"Unit " + tu + " better=" + better + "\n" + // same metadata under the base name: nothing
 		"Unit " + tu + " assume=" + other + "\n" // conflicting under the base name: error
 	rd = benchfmt.NewReader(strings.NewReader(text), "c04")
 	var kinds []string
-	for n := 0; rd.Scan() && n < 10; n++ {
+	for n := 0; rd.Scan() && n < 16; n++ {
 		switch r := rd.Result().(type) {
 		case *benchfmt.UnitMetadata:
 			_, line := r.Pos()
 			kinds = append(kinds, fmt.Sprintf("meta@%d %q/%q %s=%s", line, r.Unit, r.OrigUnit, r.Key, r.Value))
 		case *benchfmt.SyntaxError:
+			if pairless[r.Line] {
+				// whether a Unit line without any pair deserves a
+				// complaint is not this property's subject
+				continue
+			}
 			kinds = append(kinds, fmt.Sprintf("error@%d", r.Line))
 		default:
 			kinds = append(kinds, fmt.Sprintf("%T", r))
 		}
 	}
-	wantKinds := []string{
-		fmt.Sprintf("meta@1 %q/%q better=%s", tu, U, better),
-		fmt.Sprintf("meta@1 %q/%q assume=%s", tu, U, assume),
-		"error@3",
-	}
+	wantKinds := append(append([]string{}, preRecs...),
+		fmt.Sprintf("meta@%d %q/%q better=%s", preLines+1, tu, U, better),
+		fmt.Sprintf("meta@%d %q/%q assume=%s", preLines+1, tu, U, assume),
+		fmt.Sprintf("error@%d", preLines+3),
+	)
 	if strings.Join(kinds, "; ") != strings.Join(wantKinds, "; ") {
 		return kit.Failf("metadata-records", "input %q gave records [%s], want [%s]", text, strings.Join(kinds, "; "), strings.Join(wantKinds, "; "))
 	}
@@ -302,7 +355,7 @@ func c04Enum(thorough bool, yield func(c04Case)) {
 	n := 0
 	emit := func(u string) {
 		n++
-		yield(c04Case{Unit: kit.B(u), Vals: c04Specials(), Lower: n%2 == 0, Assume: n%3 != 0})
+		yield(c04Case{Unit: kit.B(u), Vals: c04Specials(), Lower: n%2 == 0, Assume: n%3 != 0, Pre: n % 7})
 	}
 	maxN := 3
 	if thorough {
@@ -388,7 +441,7 @@ func c04GenRandom(r *kit.Rand, i int) c04Case {
 			vals[j] = kit.F(c04RandFloat(r))
 		}
 		kit.Count("units whose ns/MB factors cancel exactly", 1)
-		return c04Case{Unit: kit.B(sb.String()), Vals: vals, Lower: r.Bool(), Assume: r.Chance(0.7)}
+		return c04Case{Unit: kit.B(sb.String()), Vals: vals, Lower: r.Bool(), Assume: r.Chance(0.7), Pre: r.Range(0, 6)}
 	}
 	if r.Chance(0.05) {
 		sb.WriteString(kit.Pick(r, seps))
@@ -415,7 +468,7 @@ func c04GenRandom(r *kit.Rand, i int) c04Case {
 	for j := range vals {
 		vals[j] = kit.F(c04RandFloat(r))
 	}
-	return c04Case{Unit: kit.B(u), Vals: vals, Lower: r.Bool(), Assume: r.Chance(0.7)}
+	return c04Case{Unit: kit.B(u), Vals: vals, Lower: r.Bool(), Assume: r.Chance(0.7), Pre: r.Range(0, 6)}
 }
 
 func TestVerifC04(t *testing.T) {
